@@ -95,7 +95,10 @@ CLAIMED = {
 
 # further claims, one file per property: tools/claims/Cxx.json {"text":…, "note":…, "technique":…, "design_ref":…}
 import glob, os
+_listed = open("/verif/coq/_CoqProject").read()
 for _f in sorted(glob.glob(os.path.join(os.path.dirname(os.path.abspath(__file__)), "claims", "C*.json"))):
+    if f"theories/Props/{os.path.basename(_f)[:3]}.v" not in _listed:
+        continue  # a builder's claim whose Coq files are not integrated yet
     _d = json.load(open(_f))
     CLAIMED[os.path.basename(_f)[:3]] = (_d["text"], _d["note"], _d["technique"], _d.get("design_ref", "DESIGN.md §10"))
 
